@@ -14,7 +14,7 @@ from ..order import Interp
 from ..algebra_lin import linear_form
 
 FILESET = "typhon/files/fileset.py"
-EXPECT = {"C16.keys": 2, "C16.shortcut": 3, "C16.window": 3, "C16.cover": 2, "C16.nearest": 2, "C16.single": 1, "C16.dispatch": 2}
+EXPECT = {"C16.args": 2, "C16.keys": 2, "C16.shortcut": 4, "C16.window": 3, "C16.cover": 2, "C16.nearest": 2, "C16.single": 1, "C16.dispatch": 2}
 
 
 def _guards(node):
@@ -33,6 +33,70 @@ def _guards(node):
     return out
 
 
+def _valued_returns_under(flow, atoms, stop=()):
+    """return statements with a value other than None that are reachable under the assumption `atoms`"""
+    from ..flow import reach_under
+    live = reach_under(flow, atoms, stop=stop)
+    out = []
+    for r in flow.stmts:
+        if isinstance(r, ast.Return) and r.value is not None and not (isinstance(r.value, ast.Constant) and r.value.value is None):
+            if any(n in live for n in flow.cfg.nodes(r)):
+                out.append(r)
+    return out
+
+
+def _early_returns(ctx, f, flow, flt, known):
+    """a file returned without asking find() - a short cut, a remembered answer - is returned only when no filters were given:
+    reachability of every such return under the assumption `filters is not None`, helpers of the class followed one level"""
+    finds = [c for c in calls_in(f.node, "find") if norm(c.func) == "self.find"]
+    if not finds:
+        raise AnalysisError("find_closest: no call of self.find")
+    fst = set(flow.cfg.nodes(enclosing_stmt(finds[0])))
+    atoms = {"%s is None" % flt: False, "%s is not None" % flt: True, "%s == None" % flt: False, "%s != None" % flt: True}
+    bad = []
+    for r in _valued_returns_under(flow, atoms, stop=(flt,)):
+        if all(flow.cfg.dominated_by(n, fst) for n in flow.cfg.nodes(r)):
+            continue
+        g = _guards(r)
+        if "self.single_file" in g:
+            continue        # the one file of a fileset without placeholders: decided by C16.single
+        val = flow.resolve(r.value, at=r, depth=2, stop=(flt,))
+        if isinstance(val, ast.Call) and isinstance(val.func, ast.Attribute) and norm(val.func.value) == "self" and val.func.attr != "get_info":
+            try:
+                h = ctx.func(FILESET, "FileSet." + val.func.attr)
+            except AnalysisError:
+                h = None
+            if h is not None:
+                hp = h.params if h.is_static else h.params[1:]
+                hatoms = {}
+                for i_, a_ in enumerate(val.args):
+                    if i_ < len(hp):
+                        _bind_atom(hatoms, hp[i_], a_, flt)
+                for k_ in val.keywords:
+                    if k_.arg in hp:
+                        _bind_atom(hatoms, k_.arg, k_.value, flt)
+                hflow = Flow(h)
+                live = _valued_returns_under(hflow, hatoms, stop=tuple(hp))
+                if not live:
+                    continue        # with filters the helper answers None only
+                bad.append("line %d: return %s, where %s can return %s although filters were given" % (r.lineno, norm(r.value), h.qualname, norm(live[0].value)))
+                continue
+        bad.append("line %d: return %s under %s" % (r.lineno, norm(r.value), g))
+    ctx.ob("FileSet.find_closest.early", not bad, "files returned without a search although filters were given: %s" % (bad or "none"),
+           "none: an answer that does not come from find(..., filters=filters) is given only when `filters is None`", node=f.node, func=f)
+
+
+def _bind_atom(atoms, param, arg, flt):
+    t = str(norm(arg))
+    if t == flt:
+        atoms.update({"%s is None" % param: False, "%s is not None" % param: True, "%s == None" % param: False, "%s != None" % param: True})
+    elif t in ("%s is None" % flt, "%s == None" % flt, "not %s" % flt):
+        if t != "not %s" % flt:
+            atoms[param] = False
+    elif t in ("%s is not None" % flt, "%s != None" % flt):
+        atoms[param] = True
+
+
 def rule_shortcut(ctx):
     ctx.rule("C16.shortcut", "T1", "exact-name short cut: existing file, not excluded, no filters; only placeholder errors are swallowed")
     f = ctx.func(FILESET, "FileSet.find_closest")
@@ -44,6 +108,7 @@ def rule_shortcut(ctx):
         ctx.ob("FileSet.find_closest.shortcut", True, "no exact-name short cut", "absent or guarded", node=f.node, func=f)
         ctx.ob("FileSet.find_closest.shortcut.errors", True, "no exact-name short cut", "-", node=f.node, func=f)
         ctx.ob("FileSet.find_closest.shortcut.name", True, "no exact-name short cut", "-", node=f.node, func=f)
+        _early_returns(ctx, f, flow, flt, [])
         return
     t = tries[0]
     gf = [c for s in t.body for c in calls_in(s, "get_filename")][0]
@@ -66,6 +131,7 @@ def rule_shortcut(ctx):
     ctx.ob("FileSet.find_closest.shortcut", bool(rets) and not bad, "short-cut returns: %s" % (bad or "%d, all guarded" % len(rets)),
            "returned only if the file exists, is not excluded (full is_excluded: names AND periods) and no filters were given "
            "(every other answer comes from find(), which applies all three)", node=rets[0] if rets else t, func=f)
+    _early_returns(ctx, f, flow, flt, rets)
     caught = []
     for h in t.handlers:
         if h.type is None:
@@ -388,3 +454,6 @@ def run(ctx):
     from .C02 import rule_anchor
     ctx.attempt(rule_anchor, ctx, "C01.anchor")
     tree_rules(ctx, which=("pred", "partition", "descent_q", "scan_q", "early_q", "rows", "empty", "extent", "member"))
+    # the caller's arguments (arrays, filter / fill dictionaries) are not modified: an in-place update makes the next call on the same objects wrong
+    from ..purity import rule_pure as _rule_args
+    ctx.attempt(_rule_args, ctx, "C16.args", [('typhon/files/fileset.py', 'FileSet.find_closest'), ('typhon/files/fileset.py', 'FileSet.__getitem__')], "the caller's arguments are not modified in place")
